@@ -920,6 +920,7 @@ class Engine:
         self.counter = 0
         self.tokens = {}
         self.tok_index = {}
+        self._sin_args = []
         self.str_made = set()       # tokens created by str()/format() of a symbolic number
         self._plain_checked = set()
         self.obligations = []
@@ -1301,6 +1302,11 @@ class Engine:
         self.add_side(y.t >= 0)
         self.add_side(z3.Implies(xt == 0, y.t == 0))
         self.add_side(z3.Implies(xt > 0, y.t > 0))
+        # sqrt vs 1 (monotone, sqrt(1) = 1): true facts that let the solver bound ratios such as sqrt(u/(u+k))
+        self.add_side(z3.Implies(xt < 1, y.t < 1))
+        self.add_side(z3.Implies(xt == 1, y.t == 1))
+        self.add_side(z3.Implies(xt > 1, z3.And(y.t > 1, y.t < xt)))
+        self.add_side(z3.Implies(z3.And(xt > 0, xt < 1), y.t > xt))
         if self.algebraic:
             self.add_side(y.t * y.t == xt)
         return y
@@ -1316,6 +1322,8 @@ class Engine:
         y = f(*ats)
         if name in ("cos", "sin"):
             self.add_side(z3.And(y >= -1, y <= 1))
+            if name == "sin":
+                self._sin_args.append(ats[0])
         elif name == "exp":
             self.add_side(y > 0)
             self.add_side(z3.Implies(ats[0] <= 0, y <= 1))
